@@ -14,8 +14,10 @@ func init() {
 		{"RX", []string{"RX-*"}},
 		{"AL", []string{"AL-*"}},
 		{"BN", []string{"PARSE-*"}},
-	}, map[string]int{"SM-ref": 19, "SM-first": 1, "SM-prefix": 1, "RX-model": 7, "RX-status": 1},
-		"Static decision of the structural clauses of parse fidelity: (RX) language inclusion printer-model ⊆ parser pattern for every line shape of runtime/traceback.go, decided on the product automaton of regexp/syntax programs read from the type-checked source; (SM) the complete transition relation of scan extracted from SSA for every state and abstract configuration and compared, line kind by line kind, with the reference automaton, including which captured group feeds which goroutine field; SM-prefix/first/append: one indentation per dump, First only on the first goroutine, goroutines and calls only appended in order; (AL) no parsed value aliases the reusable read buffer; (PARSE) shape rules of parseArgs/Func.Init/Call.init. Not decided: value-level equality of the parsed strings and numbers.",
+		{"FL", []string{"FL-fill-account", "FL-fill-err", "FL-err-after-data", "FL-chunk-once", "FL-line-shape", "FL-line-once", "FL-fill-slide"}},
+		{"NM", []string{"NM-isptr"}},
+	}, map[string]int{"SM-ref": 19, "SM-first": 1, "SM-prefix": 1, "RX-model": 7, "RX-status": 1, "PARSE-func": 1, "PARSE-file": 1, "PARSE-callinit": 1, "PARSE-args": 1, "PARSE-atou": 1, "PARSE-funcinit": 1},
+		"Static decision of the structural clauses of parse fidelity: (RX) language inclusion printer-model ⊆ parser pattern for every line shape of runtime/traceback.go, decided on the product automaton of regexp/syntax programs read from the type-checked source; (SM) the complete transition relation of scan extracted from SSA for every state and abstract configuration and compared, line kind by line kind, with the reference automaton, including which captured group feeds which goroutine field; SM-prefix/first/append: one indentation per dump, First only on the first goroutine, goroutines and calls only appended in order; (AL) no parsed value aliases the reusable read buffer; (PARSE) which captured text feeds which field in parseFunc, parseFile, Call.init, Func.Init and per token of parseArgs, and that atou cannot overflow; (FL) every byte read reaches the scanner exactly once (counts added even with an error, chunks concatenated in order); pointer-likeness is a function of the value (NM-isptr). Not decided: value-level equality of the parsed strings and numbers.",
 		"the printer model refs/printer_formats.json reflects runtime/traceback.go of go1.17..1.26", "regexp implements RE2 semantics as compiled by regexp/syntax")
 	p("C02", []RuleSel{
 		{"SM", []string{"SM-looking-clean", "SM-withhold", "SM-blank", "SM-done-remainder"}},
@@ -26,7 +28,7 @@ func init() {
 	p("C03", []RuleSel{
 		{"SM", []string{"SM-panic", "SM-deref", "RX-groups", "SM-progress"}},
 		{"FL", []string{"FL-fill-guard", "FL-suffix-once"}},
-		{"BN", []string{"PN-*", "BN-*", "LP-*"}},
+		{"BN", []string{"PN-*", "BN-*", "LP-*", "PARSE-atou"}},
 		{"LX", []string{"LX-enum", "LX-len"}},
 		{"EQ", []string{"EQ-key", "EQ-lift"}},
 		{"AG", []string{"AG-merge"}},
@@ -46,10 +48,10 @@ func init() {
 		"similar/equal read their operands only through field loads and comparisons, so each is a decision tree over a few atoms; the tree extracted from SSA (one per level) is compared with the reference key of the property statement for every truth assignment of the atoms (exhaustive: EQ-key for arguments, EQ-lift for the pointwise liftings Args/Stack and the Call conjunction, EQ-sig-scalars for Signature incl. the ExactFlags-only lock test); the reference keys are checked to be equivalence relations that refine each other on the complete 3-value model of an argument; no function reachable from Signature.similar reads the sleep fields (EQ-noread); a merged key keeps the left side's class (EQ-merge-class) and the lookup uses the caller's level (AG-level). Bucket = class then follows by induction over arrivals (unique similar key, merge keeps the class).",
 		"equality logic small-model property: functions that only compare fields are determined by the pattern of (in)equalities")
 	p("C12", []RuleSel{
-		{"EQ", []string{"EQ-merge-show", "EQ-sig-scalars", "EQ-merge-class", "EF-fresh-merge"}},
+		{"EQ", []string{"EQ-merge-show", "EQ-sig-scalars", "EQ-merge-class", "EF-fresh-merge", "EQ-lift", "EQ-key"}},
 		{"AG", []string{"AG-merge", "AG-collect"}},
 	}, map[string]int{"EQ-merge-show": 8, "EQ-sig-scalars": 5, "AG-merge": 1},
-		"What a merged signature is made of is decided on every SSA path of the four merge functions: an argument equal on both sides is copied unchanged, one that differs becomes '*' (with the left side's value/pointer-ness kept, nothing from the right side), aggregates are merged field by field at the same position, every other field of a frame is the left frame's (equal by similarity), frame i merges frame i of both sides, sleep bounds are min/max, Locked is the OR, state and creator are the left side's; a similar-but-not-equal member always goes through merge (AG-merge) and the published bucket signature is the map key (AG-collect).",
+		"What a merged signature is made of is decided on every SSA path of the four merge functions: an argument equal on both sides is copied unchanged, one that differs becomes '*' (with the left side's value/pointer-ness kept, nothing from the right side), aggregates are merged field by field at the same position, every other field of a frame is the left frame's (equal by similarity), frame i merges frame i of both sides, sleep bounds are min/max, Locked is the OR, state and creator are the left side's; a similar-but-not-equal member always goes through merge (AG-merge) and the published bucket signature is the map key (AG-collect); the fields taken from the left side are equal in all members because similarity compares them (EQ-lift: line, complete function reference, source path; EQ-sig-scalars: state, creator).",
 		"")
 	p("C13", []RuleSel{
 		{"LX", []string{"LX-swo", "LX-order", "LX-enum", "LX-len"}},
@@ -104,7 +106,7 @@ func init() {
 		{"FL", []string{"LOC-gate"}},
 		{"BN", []string{"BN-neg"}},
 		{"MO", []string{"MO-range"}},
-	}, map[string]int{"LOC-branch": 5, "LOC-sep": 3, "LOC-search": 2, "LOC-testmain": 1, "LOC-consts": 1},
+	}, map[string]int{"LOC-branch": 5, "LOC-sep": 3, "LOC-search": 2, "LOC-testmain": 1, "LOC-consts": 1, "LOC-order": 1, "LOC-probe": 1, "LOC-all": 3},
 		"Claimed narrowly: the structural clauses. Every match branch of Call.updateLocations pairs (root kind, separator, Location constant, local-path construction): the relative path is what follows the matched prefix, the local path ends with the relative path, the class is assigned only while still unknown (keeps the _testmain.go special case), and the no-match path writes nothing (LOC-branch); roots are matched only at a path-component boundary in updateLocations, hasPrefix and hasSrcPrefix (LOC-sep); the upward go.mod search covers every ancestor directory and the split search every split point (LOC-search); the directory constants agree between the sibling functions (LOC-consts); root arithmetic cannot go negative (BN-neg); roots are tried in a fixed order, nested ones first (MO). Not decided: which roots are found for a given disk layout (I/O-dependent search), i.e. that every frame whose file exists locally is mapped to it.",
 		"the file system answers isFile/ReadFile truthfully")
 	p("C17", []RuleSel{
@@ -117,8 +119,8 @@ func init() {
 	p("C16", []RuleSel{
 		{"NI", []string{"NI-*"}},
 		{"EF", []string{"EF-immut"}},
-	}, map[string]int{"NI-flow": 1, "NI-width": 3, "NI-split": 2, "NI-all": 2},
-		"Colour independence is a non-interference property: palette strings (loads of Palette fields and everything concatenated or formatted from them) may flow only into string concatenation, %s operands of constant formats, returns and writers — never into a comparison, len, index, conversion or a width operand; the one documented exception is the header handed to the filter/match expressions (NI-flow, taint analysis over package internal). NI-width: the widths computed by calcBucketsLengths/calcGoroutinesLengths are the lengths of exactly the two expressions callLine pads with %-*s. NI-split/NI-all: per element both console writers compute the header once, apply filter and match to that very string with opposite polarity, and write header then stack for every element not skipped. Not decided: the exact text of headers.",
+	}, map[string]int{"NI-flow": 1, "NI-width": 3, "NI-split": 2, "NI-all": 2, "NI-header": 2},
+		"Colour independence is a non-interference property: palette strings (loads of Palette fields and everything concatenated or formatted from them) may flow only into string concatenation, %s operands of constant formats, returns and writers — never into a comparison, len, index, conversion or a width operand; the one documented exception is the header handed to the filter/match expressions (NI-flow, taint analysis over package internal). NI-width: the widths computed by calcBucketsLengths/calcGoroutinesLengths are the lengths of exactly the two expressions callLine pads with %-*s. NI-split/NI-all: per element both console writers compute the header once, apply filter and match to that very string with opposite polarity, and write header then stack for every element not skipped. NI-header: a header is count/id and state, then the sleep range iff non-empty, the lock marker iff locked, the creator iff known. Not decided: the exact wording.",
 		"fmt pads by rune count of the uncoloured operands")
 	p("C07", []RuleSel{
 		{"SM", []string{"SM-ref", "SM-progress", "SM-looking-clean", "SM-done-remainder"}},
@@ -134,7 +136,7 @@ func init() {
 		"Race half of the scanner automaton compared with the reference (one goroutine appended per operation header with id/address/kind taken from the right capture groups, creation frames appended to the goroutine whose id matched, unknown id ⇒ error, footer ends the report), index facts for goroutineIndex (SM-raceidx, SM-deref), language inclusion of tsan's Go report line shapes in the three race patterns (RX-race), IsRace reads the first goroutine's address (RACE-israce). Not decided: numeric value of addresses; IsRace for address 0.",
 		"refs/printer_formats.json reflects tsan_report.cpp (Go branch)")
 	p("C09", []RuleSel{
-		{"FL", []string{"FL-chunk-once", "FL-line-shape", "FL-err-after-data", "FL-fill-account", "FL-fill-slide", "FL-fill-guard", "FL-fill-err", "FL-reader-fresh"}},
+		{"FL", []string{"FL-chunk-once", "FL-line-shape", "FL-err-after-data", "FL-fill-account", "FL-fill-slide", "FL-fill-guard", "FL-fill-err", "FL-reader-fresh", "FL-fill-retry", "FL-err-prec"}},
 		{"AL", []string{"AL-*"}},
 		{"SM", []string{"SM-prefix"}},
 	}, map[string]int{"FL-chunk-once": 1, "FL-line-shape": 3, "FL-fill-account": 1, "AL-buffer": 1},
@@ -144,6 +146,7 @@ func init() {
 		{"SM", []string{"SM-cut-forward", "SM-cur-only", "SM-append", "SM-panic", "SM-deref"}},
 		{"FL", []string{"FL-err-prec", "FL-snapshot", "FL-fill-account", "FL-fill-err", "FL-err-after-data"}},
 		{"BN", []string{"WEB-trunc", "BN-neg"}},
+		{"LOC", []string{"LOC-all"}},
 	}, map[string]int{"FL-err-prec": 2, "FL-snapshot": 1, "SM-cur-only": 5, "SM-cut-forward": 1},
 		"A reader failure is returned as exactly that error unless it is nil/EOF (FL-err-prec over all paths of the scan loop); a snapshot is returned iff a goroutine header was seen (FL-snapshot); data delivered together with an error is not lost and the error is reported after it (FL-fill-account, FL-fill-err, FL-err-after-data); goroutines before the cut are never written again (SM-cur-only, SM-append over the extracted automaton, whose fixpoint is closed under end-of-stream in every configuration: SM-panic, SM-deref); an unterminated last line is not forwarded when it may be the head of a dump line (SM-cut-forward). Not decided: value-level equality of the earlier goroutines with the uncut parse.",
 		"")
